@@ -1,21 +1,27 @@
 #!/bin/bash
-# apply every seeded change to /repo in turn, run the quick check of the property it breaks, record detection in seeded/<id>/meta.json
+# apply every seeded change (optionally: ids matching regex $1) to a scratch worktree of /repo's HEAD in turn, run the quick check of
+# the property it breaks against that worktree (DREYE_REPO), record detection in seeded/<id>/meta.json.  /repo itself is not touched.
+# (equivalent to `git -C /repo apply <patch>; ./check ...; git -C /repo checkout -- .`, but lets other checks run meanwhile)
 cd "$(dirname "$0")/.."
-cd /repo && git diff --quiet || { echo "/repo not clean"; exit 2; }
-cd - >/dev/null
+git -C /repo diff --quiet || { echo "/repo not clean"; exit 2; }
+wt=/tmp/repo_scan_$$
+git -C /repo worktree add -q --detach "$wt" HEAD || exit 2
+trap 'git -C /repo worktree remove --force "$wt" >/dev/null 2>&1; git -C /repo worktree prune' EXIT
+tier="${TIER:-quick}"
 for d in seeded/*/; do
   id=$(basename "$d"); prop=${id%%-*}
-  if ! git -C /repo apply "$PWD/$d/patch.diff" 2>/dev/null; then echo "$id PATCH-DOES-NOT-APPLY"; continue; fi
-  out=$(./check "$prop" --tier quick 2>&1 | tail -12)
-  git -C /repo checkout -- .
+  if [ -n "$1" ] && ! [[ "$id" =~ $1 ]]; then continue; fi
+  if ! git -C "$wt" apply "$PWD/$d/patch.diff" 2>/dev/null; then echo "$id PATCH-DOES-NOT-APPLY"; continue; fi
+  out=$(DREYE_REPO="$wt" ./check "$prop" --tier "$tier" 2>&1 | tail -12)
+  git -C "$wt" checkout -- .
   nv=$(echo "$out" | grep -c "^VIOLATION")
   nofail=$(echo "$out" | grep -c "no-failing-input-found")
   last=$(echo "$out" | tail -1)
-  python3 - "$d" "$prop" "$nv" "$nofail" "$last" <<'PY'
+  python3 - "$d" "$prop" "$nv" "$nofail" "$last" "$tier" <<'PY'
 import json, sys
-d, prop, nv, nofail, last = sys.argv[1], sys.argv[2], int(sys.argv[3]), int(sys.argv[4]), sys.argv[5]
+d, prop, nv, nofail, last, tier = sys.argv[1], sys.argv[2], int(sys.argv[3]), int(sys.argv[4]), sys.argv[5], sys.argv[6]
 m = json.load(open(d + "/meta.json"))
-m["detected_by"] = {"check": "./check %s --tier quick" % prop, "violation_lines": nv, "with_failing_input": nv - nofail, "summary": last} if nv else None
+m["detected_by"] = {"check": "./check %s --tier %s" % (prop, tier), "violation_lines": nv, "with_failing_input": nv - nofail, "summary": last} if nv else None
 json.dump(m, open(d + "/meta.json", "w"), indent=1)
 print(d.split("/")[1], "DETECTED" if nv else "MISSED", "(with replay input)" if nv - nofail > 0 else "", "|", last)
 PY
